@@ -55,6 +55,8 @@ type opIn struct {
 	St   string `json:"st"`
 	Exp  int    `json:"exp"`
 	Host string `json:"host"` // hex
+	Var  string `json:"var"`  // F (forged update): which immutable field of the payload is replaced: client | sub | base | full | none
+	C2   int    `json:"c2"`   // F: the client id put into the payload (var = client)
 }
 type thrIn struct {
 	Client int    `json:"client"`
@@ -372,7 +374,7 @@ func (r *runState) onClaim(thr int, name, id string) {
 }
 
 func (c *tctx) actor() int64 {
-	if c.kind == "K" {
+	if c.kind == "K" || c.kind == "F" { // cleanup acts as the record's owner; a repository-level update acts as its payload's client
 		return c.actAs
 	}
 	return c.client
@@ -430,13 +432,13 @@ func (r *runState) onRecordWrite(thr int, id string, value any) {
 	}
 	ok := false
 	for _, ev := range r.byID[id] {
-		if ev.client == m.ClientID && ev.name == m.FullDomain && ev.client == c.client {
+		if ev.client == m.ClientID && ev.name == m.FullDomain && ev.client == c.actor() {
 			ok = true
 		}
 	}
 	if !ok {
-		r.fail("record-written-without-claim", fmt.Sprintf("caller %d (client %d) wrote record %s {client %d, domain %q} without having claimed that domain under that id",
-			thr, c.client, id, m.ClientID, m.FullDomain))
+		r.fail("record-written-without-claim", fmt.Sprintf("caller %d (acting as client %d) wrote record %s {client %d, domain %q} without having claimed that domain under that id",
+			thr, c.actor(), id, m.ClientID, m.FullDomain))
 	}
 	for _, ev := range r.byID[id] {
 		if ev.client != m.ClientID || ev.name != m.FullDomain {
@@ -444,7 +446,7 @@ func (r *runState) onRecordWrite(thr int, id string, value any) {
 		}
 	}
 	r.writes[id] = append(r.writes[id], [2]int64{m.ClientID, int64(m.TargetPort)})
-	if c.kind == "U" {
+	if c.kind == "U" || c.kind == "F" {
 		r.updated[id] = true
 	}
 }
@@ -771,6 +773,42 @@ func runSched(c caseIn) *caseOut {
 						r.checkRouted(i, host, pm, tc.lastRec, tc.lastRecOK)
 					}
 					results[i] = append(results[i], routedRes(pm, err))
+				case "F":
+					// repository-level update with a forged payload: read the mapping, replace ONE immutable field, send it back
+					cur, gerr := repo.GetMapping(ctx, fmt.Sprintf("hdm_%d", op.Abs))
+					if gerr != nil {
+						results[i] = append(results[i], []int{5, errCode(gerr)})
+						break
+					}
+					cp := *cur
+					switch op.Var {
+					case "client":
+						cp.ClientID = int64(op.C2)
+					case "sub":
+						cp.Subdomain = "zz"
+					case "base":
+						cp.BaseDomain = "zz.example"
+					case "full":
+						cp.FullDomain = "zz.tunnox.net"
+					}
+					cp.Status = repos.HTTPDomainMappingStatus(op.St)
+					cp.ExpiresAt = 0
+					if op.Exp > 0 {
+						cp.ExpiresAt = r.start + int64(op.Exp-t0)
+					} else if op.Exp < 0 {
+						cp.ExpiresAt = int64(op.Exp)
+					}
+					cp.TargetHost, cp.TargetPort = fmt.Sprintf("h%d", op.Tgt), op.Tgt
+					tc.actAs = cp.ClientID // the repository API carries no caller identity: the payload's client id is the acting identity
+					if err := repo.UpdateMapping(ctx, &cp); err != nil {
+						results[i] = append(results[i], []int{5, errCode(err)})
+					} else {
+						results[i] = append(results[i], []int{2})
+						if cp.ClientID != cur.ClientID || cp.FullDomain != cur.FullDomain {
+							r.fail("update-changed-owner", fmt.Sprintf("UpdateMapping(%s) with a payload naming client %d / domain %q was accepted although the stored mapping belongs to client %d / %q",
+								cp.ID, cp.ClientID, cp.FullDomain, cur.ClientID, cur.FullDomain))
+						}
+					}
 				case "K":
 					n, err := repo.CleanupExpiredMappings(ctx)
 					if err != nil {
@@ -1233,6 +1271,18 @@ func deleteShape() (guarded, indexFirst bool) {
 	return
 }
 
+// updateChecksClient: is an UpdateMapping whose payload names another client refused?
+func updateChecksClient() bool {
+	ctx, cancel := context.WithCancel(context.Background())
+	defer cancel()
+	repo := repos.NewHTTPDomainMappingRepository(repos.NewRepository(memory.New(ctx)), nil)
+	m, err := repo.CreateMapping(ctx, 1, "probe", "tunnox.net", "h1", 1)
+	must(err)
+	cp := *m
+	cp.ClientID = 2
+	return repo.UpdateMapping(ctx, &cp) != nil
+}
+
 // lookupErrorStops: with the repository's reads failing and a legacy registry entry for the Host, is the request rejected?
 type failingReads struct{ *memory.Storage }
 
@@ -1299,6 +1349,7 @@ func gen() {
 	guarded, indexFirst := deleteShape()
 	fmt.Printf("Definition delete_is_guarded : bool := %v.\n", guarded)
 	fmt.Printf("Definition delete_index_before_record : bool := %v.\n", indexFirst)
+	fmt.Printf("Definition update_checks_client : bool := %v.\n", updateChecksClient())
 	fmt.Printf("Definition lookup_error_stops : bool := %v.\n", lookupErrorStops())
 	fmt.Printf("Definition counter_never_expires : bool := %v.\n", counterNeverExpires())
 	fmt.Printf("Definition counter_ttl_seconds : N := %d%%N.\n", int64(constants.DefaultDataTTL/time.Second))
